@@ -22,7 +22,7 @@ from . import pyn, simkit
 from .sched import Scheduler, SimThread, ThreadingShim
 from .simkit import Decisions, History, SimClock
 
-CORPUS = ["tiny", "words", "shapes", "floats", "zoo"]
+CORPUS = ["tiny", "words", "shapes", "floats", "zoo", "plain"]
 
 
 class Monitor:
@@ -183,6 +183,8 @@ class PipelineRun:
                 "filter_assertions_in_subprocess": False,  # would fork a real, unsimulated child
             },
             "type_inference": {"type_tracing": kn.get("type_tracing", 0.0)},
+            "generator_selection": {"generator_selection_algorithm":
+                                    getattr(config.Selection, kn.get("generator_selection", "RANK_SELECTION"))},
             "local_search": {"local_search": kn.get("local_search", False),
                              "local_search_time": kn.get("local_search_time_ms", 300)},
             "random": {"max_sequence_length": 6, "max_sequences_combined": 4},
@@ -234,9 +236,11 @@ class PipelineRun:
                         sut_line_cost_ns=self.case.get("line_cost_ns", 20_000), max_yields=30_000_000)
         sut_dir = str(simkit.SUT_DIR) + os.sep
 
+        mutant_filename = self.case["module"]  # mutated modules are compiled with the bare module name as filename
+
         def classify(code):
             fn = code.co_filename
-            return "sut" if (fn == "<ast>" or fn == "<stmt>" or fn.startswith(sut_dir)) else None
+            return "sut" if (fn == "<ast>" or fn == "<stmt>" or fn == mutant_filename or fn.startswith(sut_dir)) else None
 
         sch.classify = classify
         if self.case.get("log_lines"):
